@@ -220,7 +220,7 @@ theorem Full.setCache {d : CS υ} (hI : Full lower ettl Iυ d) {c' : Cache} (h1 
 
 /-- **the periodic purge never raises into the loop** (given `UserOK`: it calls the user listeners) and keeps the invariant -/
 theorem purge_ok (glue : TextGlue) (hU : UserOK U Iυ) {d : CS υ} (hI : Full lower ettl Iυ d) (now : Ms) :
-    ∃ d' o, purge lower possible U upd d now = .ok (d', o) ∧ Full lower ettl Iυ d' ∧ ∀ r ∈ d'.cache.allRecs, r ∈ d.cache.allRecs := by
+    ∃ d' o, purge lower possible U upd d now = .ok (d', o) ∧ Full lower ettl Iυ d' ∧ ∀ P : Rec → Prop, CacheAll P d.cache → CacheAll P d'.cache := by
   obtain ⟨c', l, he, hc', hl, hsub, hall⟩ := expire_ok lower hI.1.1.cache (Gen.Cache.purge_expire_now now)
   unfold purge
   rw [he]
@@ -232,8 +232,9 @@ theorem purge_ok (glue : TextGlue) (hU : UserOK U Iυ) {d : CS υ} (hI : Full lo
     exact (cached_ok hI.1.1 (hl r hr)).1
   obtain ⟨d', o, hf, hI'', hcache, _⟩ := fanout_ok lower possible ettl U upd Iυ glue hU hI' (Gen.Cache.purge_updates_now now) _ hp c' c' false
   refine ⟨d', o, hf, hI'', ?_⟩
+  intro P hP
   rw [hcache]
-  exact hsub
+  exact hall P hP
 
 /-! ### browsers -/
 
@@ -282,7 +283,7 @@ listeners) and keeps the invariant; the browsed types are the block's data hypot
 theorem browserStart_ok (glue : TextGlue) (hU : UserOK U Iυ) {d : CS υ} (hI : Full lower ettl Iυ d) (cfg : Sched.Cfg) (now : Ms)
     (hty : TypesSafe cfg.types) :
     ∃ d' o, browserStart lower possible U upd d cfg now = .ok (d', o) ∧ Full lower ettl Iυ d' ∧
-      ∀ r ∈ d'.cache.allRecs, r ∈ d.cache.allRecs := by
+      ∀ P : Rec → Prop, CacheAll P d.cache → CacheAll P d'.cache := by
   obtain ⟨cr, hcr, hc', hl, hsub, hall, hpend⟩ := create_ok lower possible hI.1.1.cache now cfg.types
   have hI1 : Full lower ettl Iυ { d with cache := cr.cache } := by
     have := hI.setCache lower ettl Iυ hc' hall d.hist d.rest.2.history
@@ -341,9 +342,9 @@ theorem browserStart_ok (glue : TextGlue) (hU : UserOK U Iυ) {d : CS υ} (hI : 
     · exact hT.heap cs h
     · have : cs = (cfg, s2) := by simpa using h
       rw [this]; exact hheap2
-  · show ∀ r ∈ d1.cache.allRecs, r ∈ d.cache.allRecs
+  · show ∀ P : Rec → Prop, CacheAll P d.cache → CacheAll P d1.cache
     rw [hcache1]
-    exact hsub
+    exact hall
 
 theorem schedStart_ok {d : CS υ} (hI : Full lower ettl Iυ d) (i draw : Nat) (now : Ms) :
     Full lower ettl Iυ (schedStart d i draw now) ∧ (schedStart d i draw now).cache = d.cache := by
@@ -492,7 +493,7 @@ def ApiSafe : ApiBlock υ → Prop
 /-- **every residual block preserves the invariant without raising** — the hypothesis `hO` of `C15_history_all_timers_partial`, proved -/
 theorem apiStep_ok (glue : TextGlue) (hU : UserOK U Iυ) {d : CS υ} (hI : Full lower ettl Iυ d) (b : ApiBlock υ)
     (hb : ApiSafe lower ettl Iυ b) :
-    ∃ d' o, apiStep lower possible U upd d b = .ok (d', o) ∧ Full lower ettl Iυ d' ∧ ∀ r ∈ d'.cache.allRecs, r ∈ d.cache.allRecs := by
+    ∃ d' o, apiStep lower possible U upd d b = .ok (d', o) ∧ Full lower ettl Iυ d' ∧ ∀ P : Rec → Prop, CacheAll P d.cache → CacheAll P d'.cache := by
   cases b with
   | register s strict =>
     obtain ⟨d', h, hI'⟩ := register_ok lower possible ettl U upd Iυ hI s strict hb
@@ -507,13 +508,13 @@ theorem apiStep_ok (glue : TextGlue) (hU : UserOK U Iυ) {d : CS υ} (hI : Full 
       · cases hr
       · split at hr
         · cases hr
-        · simp only [Except.ok.injEq] at hr; rw [← hr]; exact fun r hr => hr
-    · simp only [Except.ok.injEq, Prod.mk.injEq] at h; rw [← h.1]; exact fun r hr => hr
+        · simp only [Except.ok.injEq] at hr; rw [← hr]; exact fun P hP => hP
+    · simp only [Except.ok.injEq, Prod.mk.injEq] at h; rw [← h.1]; exact fun P hP => hP
   | update s =>
     obtain ⟨d', h, hI'⟩ := update_ok lower possible ettl U upd Iυ hI s hb
     refine ⟨d', [], h, hI', ?_⟩
     simp only [apiStep] at h
-    split at h <;> (simp only [Except.ok.injEq, Prod.mk.injEq] at h; rw [← h.1]; exact fun r hr => hr)
+    split at h <;> (simp only [Except.ok.injEq, Prod.mk.injEq] at h; rw [← h.1]; exact fun P hP => hP)
   | unregister s =>
     obtain ⟨d', h, hI'⟩ := unregister_ok lower possible ettl U upd Iυ hI s
     refine ⟨d', [], h, hI', ?_⟩
@@ -527,37 +528,37 @@ theorem apiStep_ok (glue : TextGlue) (hU : UserOK U Iυ) {d : CS υ} (hI : Full 
       · cases hr
       · split at hr
         · cases hr
-        · simp only [Except.ok.injEq] at hr; rw [← hr]; exact fun r hr => hr
-    · simp only [Except.ok.injEq, Prod.mk.injEq] at h; rw [← h.1]; exact fun r hr => hr
+        · simp only [Except.ok.injEq] at hr; rw [← hr]; exact fun P hP => hP
+    · simp only [Except.ok.injEq, Prod.mk.injEq] at h; rw [← h.1]; exact fun P hP => hP
   | serviceSend key =>
     obtain ⟨o, h, hI'⟩ := serviceSend_ok lower possible ettl U upd Iυ hI key
-    exact ⟨d, o, h, hI', fun r hr => hr⟩
+    exact ⟨d, o, h, hI', fun P hP => hP⟩
   | browserStart cfg now => exact browserStart_ok lower possible ettl U upd Iυ glue hU hI cfg now hb
   | schedStart i draw now =>
     obtain ⟨h1, h2⟩ := schedStart_ok lower ettl Iυ hI i draw now
-    exact ⟨_, [], rfl, h1, by rw [h2]; exact fun r hr => hr⟩
-  | browserCancel i => exact ⟨_, [], rfl, browserCancel_ok lower ettl Iυ hI i, fun r hr => hr⟩
+    exact ⟨_, [], rfl, h1, by rw [h2]; exact fun P hP => hP⟩
+  | browserCancel i => exact ⟨_, [], rfl, browserCancel_ok lower ettl Iυ hI i, fun P hP => hP⟩
   | lookupStart name now =>
     refine ⟨_, [], rfl, lookupStart_ok lower ettl Iυ glue hI name now hb, ?_⟩
     unfold lookupStart
     dsimp only
-    split <;> exact fun r hr => hr
-  | lookupFinish j => exact ⟨_, [], rfl, lookupFinish_ok lower ettl Iυ hI j, fun r hr => hr⟩
+    split <;> exact fun P hP => hP
+  | lookupFinish j => exact ⟨_, [], rfl, lookupFinish_ok lower ettl Iυ hI j, fun P hP => hP⟩
   | purge now => exact purge_ok lower possible ettl U upd Iυ glue hU hI now
   | addUser u =>
-    refine ⟨_, [], rfl, hI.setUsers lower ettl Iυ _ ?_, fun r hr => hr⟩
+    refine ⟨_, [], rfl, hI.setUsers lower ettl Iυ _ ?_, fun P hP => hP⟩
     intro x hx
     rcases List.mem_append.mp hx with h | h
     · exact hI.1.1.rest.1 x h
     · have : x = u := by simpa using h
       rw [this]; exact hb
   | removeUser i =>
-    exact ⟨_, [], rfl, hI.setUsers lower ettl Iυ _ (fun x hx => hI.1.1.rest.1 x (List.mem_of_mem_eraseIdx hx)), fun r hr => hr⟩
-  | waitNotify id => exact ⟨_, [], rfl, hI.setUsers lower ettl Iυ _ hI.1.1.rest.1, fun r hr => hr⟩
-  | waitRecords j id => exact ⟨_, [], rfl, hI.setUsers lower ettl Iυ _ hI.1.1.rest.1, fun r hr => hr⟩
+    exact ⟨_, [], rfl, hI.setUsers lower ettl Iυ _ (fun x hx => hI.1.1.rest.1 x (List.mem_of_mem_eraseIdx hx)), fun P hP => hP⟩
+  | waitNotify id => exact ⟨_, [], rfl, hI.setUsers lower ettl Iυ _ hI.1.1.rest.1, fun P hP => hP⟩
+  | waitRecords j id => exact ⟨_, [], rfl, hI.setUsers lower ettl Iυ _ hI.1.1.rest.1, fun P hP => hP⟩
   | waitTimeout id =>
     obtain ⟨d', h, hI', hc⟩ := waitTimeout_ok lower ettl Iυ hI id
-    refine ⟨d', [], by simp only [apiStep, h], hI', by rw [hc]; exact fun r hr => hr⟩
+    refine ⟨d', [], by simp only [apiStep, h], hI', by rw [hc]; exact fun P hP => hP⟩
 
 end
 
